@@ -820,6 +820,9 @@ func (g *FnGen) analyzeLoops() {
 					for k := range g.E.callMods(x, true) {
 						li.mods[k] = true
 					}
+					for k := range g.E.localClosureFVKeys(x) {
+						li.mods[k] = true
+					}
 				}
 			}
 		}
